@@ -68,7 +68,10 @@ def _run_one(args):
                 mod = importlib.import_module(f"sa.props.{prop.lower()}")
                 mod.run(chk, repo)
                 bad = [o for o in chk.obligations if not o.ok and chk._known_entry(o) is None]
-                out.update({"killed": bool(bad), "by": sorted({o.rule for o in bad}), "instances": [o.instance for o in bad][:3], "outcome": "violation" if bad else "silent"})
+                out.update({"killed": bool(bad), "by": sorted({o.rule for o in bad}), "instances": [o.instance for o in bad][:3],
+                            "outcome": "violation" if bad else ("analysis-error" if chk.unknowns else "silent")})
+                if not bad and chk.unknowns:
+                    out["why"] = "; ".join(f"{u.rule} {u.instance}" for u in chk.unknowns[:3])
             except AnchorError as e:
                 bad = [o for o in chk.obligations if not o.ok and chk._known_entry(o) is None]
                 if bad:     # violations established before the unrecognised construct are firm (same as report.finish(partial_error=...))
